@@ -95,7 +95,7 @@ type SymConfig struct {
 	Prog         *Program
 	MaxDepth     int
 	MaxPaths     int
-	MaxRecursion int // how many activations of one function may be open below its first (0: recursion is not followed)
+	MaxRecursion int                      // how many activations of one function may be open below its first (0: recursion is not followed)
 	Collapse     bool                     // collapse effect-free diamonds (logging)
 	CollapsePure bool                     // also collapse effect-free diamonds that only compute values (join phis become opaque)
 	NoInline     map[*ssa.Function]bool   // never inline these
